@@ -227,4 +227,58 @@ theorem validate_beyond (p : List String) (F P : Tree) (m : String) (hF : F.wf c
     (hm : alookup m (encode P).kids = none) : validateTreepath (encode F) (p ++ [m]) = some (p, false) := by
   simpa [validateTreepath] using validate_go_beyond p [] F P m hF hat hm
 
+/-! ### composing writes at paths -/
+
+theorem updateAt_append (f : Obj → R Obj) : ∀ (p q : List String) (o : Obj),
+    updateAt f o (p ++ q) = updateAt (fun x => updateAt f x q) o p
+  | [], q, o => by simp [updateAt]
+  | n :: p, q, o => by
+    simp only [List.cons_append, updateAt]
+    cases alookup n o.kids with
+    | none => rfl
+    | some c => simp only [updateAt_append f p q c]
+
+theorem areplace_twice {β : Type} (k : String) (v w : β) : ∀ (l : List (String × β)),
+    areplace k v (areplace k w l) = areplace k v l
+  | [] => rfl
+  | (k', x) :: r => by
+    simp only [areplace]
+    by_cases hk : k' = k
+    · simp [hk, areplace]
+    · simp [hk, areplace, areplace_twice k v w r]
+
+theorem setKids_setKids (o : Obj) (a b : List (String × Obj)) : (o.setKids a).setKids b = o.setKids b := by
+  cases o <;> rfl
+
+theorem kids_setKids_of_lookup (o : Obj) (n : String) (c : Obj) (ks : List (String × Obj))
+    (h : alookup n o.kids = some c) : (o.setKids ks).kids = ks := by
+  cases o with
+  | group a k => rfl
+  | dataset a v => simp [Obj.kids, alookup] at h
+
+/-- two writes at the same path, one after the other, are one write of the composed function -/
+theorem updateAt_bind (f g : Obj → R Obj) : ∀ (p : List String) (o : Obj),
+    (updateAt f o p).bind (fun o1 => updateAt g o1 p) = updateAt (fun x => (f x).bind g) o p
+  | [], o => by simp [updateAt]
+  | n :: p, o => by
+    simp only [updateAt]
+    cases hl : alookup n o.kids with
+    | none => rfl
+    | some c =>
+      have ih := updateAt_bind f g p c
+      simp only [bind, Except.bind] at ih ⊢
+      cases h1 : updateAt f c p with
+      | error e =>
+        rw [h1] at ih
+        simp only [← ih]
+      | ok c' =>
+        rw [h1] at ih
+        simp only [pure, Except.pure, updateAt]
+        have hk : (o.setKids (areplace n c' o.kids)).kids = areplace n c' o.kids := kids_setKids_of_lookup o n c _ hl
+        rw [hk, alookup_areplace_same n c' o.kids (by simp [hl])]
+        simp only [← ih]
+        cases updateAt g c' p with
+        | error e => rfl
+        | ok c'' => simp only [hk, setKids_setKids, areplace_twice]
+
 end EmdModel
